@@ -50,16 +50,19 @@ import (
 const (
 	verifLayerDigestAnn = "containerd.io/snapshot/stargz/layer.digest"
 
-	// specific signatures of the candidate findings (classes of inputs on which the code as written
-	// misses the property); every other failure keeps a generic signature.
-	verifSigZstdKept     = "gzip-converter-keeps-zstd-mediatype"          // F1
-	verifSigStaleZstdAnn = "gzip-blob-keeps-zstdchunked-annotations"      // F1b
-	verifSigNonLayer     = "externaltoc-nonlayer-mediatype-panics"        // F2
-	verifSigSharedExt    = "shared-opts-slice-externaltoc"                // F3
-	verifSigSharedZstd   = "shared-opts-slice-zstdchunked"                // F4
-	verifSigSharedEsgz   = "shared-opts-slice-estargz"                    // F3b
-	verifSigLabelPreexist = "uncompressed-label-missing-preexisting-blob" // F5
-	verifSigMinChunk      = "estargz-verifytoc-rejects-minchunksize-blob" // F7 (estargz.Reader.Verifiers, not the converters)
+	// Signatures with a history (findings/known_findings.txt):
+	//  known  : verifSigZstdKept, verifSigLabelPreexist — their inputs are generated only by the
+	//           separate pass TestVerifC19Known;
+	//  fixed  : the shared-opts signatures (27b6c79) — the scenarios stay in the main pass and any
+	//           failure of them is a violation again.
+	verifSigZstdKept      = "gzip-converter-keeps-zstd-mediatype"
+	verifSigLabelPreexist = "uncompressed-label-missing-preexisting-blob"
+	verifSigSharedExt     = "shared-opts-slice-externaltoc"
+	verifSigSharedZstd    = "shared-opts-slice-zstdchunked"
+	verifSigSharedEsgz    = "shared-opts-slice-estargz"
+	// Not clauses of C19, recorded as evidence notes only (stats keys "note:..."):
+	verifNoteStaleZstdAnn = "note:gzip-blob-keeps-zstdchunked-annotations"
+	verifNoteNonLayer     = "note:externaltoc-nonlayer-mediatype"
 )
 
 // ---------------------------------------------------------------------------------------------
@@ -679,6 +682,7 @@ func verifNewConv(rnd *verifutil.Rand, target string, srcs []*verifSrc, spare bo
 
 type verifReport interface {
 	Fail(sig, what string)
+	Count(k string)
 }
 
 // verifOracleDesc recomputes everything the descriptor claims from the committed blob.
@@ -773,11 +777,11 @@ func verifOracleDesc(rep verifReport, cs content.Store, c *verifConv, src *verif
 			if r.TOCDigest() != td {
 				rep.Fail("toc-annotation-does-not-verify", fmt.Sprintf("%s: annotation %s, the TOC of the blob hashes to %s", id, td, r.TOCDigest()))
 			} else if _, err := r.VerifyTOC(td); err != nil {
-				sig := "toc-annotation-does-not-verify"
-				if c.minChunk != nil && c.minChunk(src.desc.Digest) > 0 && strings.Contains(err.Error(), "found twice") {
-					sig = verifSigMinChunk // Verifiers() keys chunks by Offset only; streams shared by several files repeat it
+				mc := 0
+				if c.minChunk != nil {
+					mc = c.minChunk(src.desc.Digest)
 				}
-				rep.Fail(sig, fmt.Sprintf("%s: VerifyTOC(%s): %v", id, td, err))
+				rep.Fail("toc-annotation-does-not-verify", fmt.Sprintf("%s: VerifyTOC(%s): %v (MinChunkSize in effect: %d)", id, td, err, mc))
 			}
 			// the mount path: metadata reader over the same bytes
 			mr, err := memorymetadata.NewReader(io.NewSectionReader(bytes.NewReader(blob), 0, int64(len(blob))), metadata.WithDecompressors(dec))
@@ -811,8 +815,8 @@ func verifOracleDesc(rep verifReport, cs content.Store, c *verifConv, src *verif
 		verifOracleZstdManifest(rep, id, blob, nd)
 	} else {
 		for _, k := range []string{esgzzstd.ManifestChecksumAnnotation, esgzzstd.ManifestPositionAnnotation} {
-			if v, ok := nd.Annotations[k]; ok {
-				rep.Fail(verifSigStaleZstdAnn, fmt.Sprintf("%s: gzip blob carries %s=%q copied from the zstd:chunked source", id, k, v))
+			if _, ok := nd.Annotations[k]; ok {
+				rep.Count(verifNoteStaleZstdAnn) // extra annotations are not a clause of C19
 			}
 		}
 	}
@@ -946,6 +950,9 @@ func verifOracleTOCImage(out verifEmitter, rnd *verifutil.Rand, cs content.Store
 		// the layer opens and verifies with THIS TOC (descriptor oracle with the external TOC)
 		rec := &verifRecorder{}
 		verifOracleDesc(rec, cs, c, d.src, d.nd, tb, where)
+		for _, k := range rec.counts {
+			out.Count(k)
+		}
 		for _, f := range rec.fails {
 			sig := f[0]
 			if sig == "toc-annotation-does-not-verify" || sig == "converted-blob-does-not-open" {
@@ -1009,13 +1016,20 @@ func verifKeys(m map[string][]ocispec.Descriptor) []string {
 }
 
 type verifRecorder struct {
-	mu    sync.Mutex
-	fails [][2]string
+	mu     sync.Mutex
+	fails  [][2]string
+	counts []string
 }
 
 func (r *verifRecorder) Fail(sig, what string) {
 	r.mu.Lock()
 	r.fails = append(r.fails, [2]string{sig, what})
+	r.mu.Unlock()
+}
+
+func (r *verifRecorder) Count(k string) {
+	r.mu.Lock()
+	r.counts = append(r.counts, k)
 	r.mu.Unlock()
 }
 
@@ -1119,10 +1133,20 @@ var verifTargets = []string{"esgz", "zstdchunked", "exttoc", "exttoc-lossless"}
 // verifTable runs EVERY row of the media-type table (4 converters x 19 media types, content in the
 // encoding the media type names) through the real converters, plus `extra` rows whose content is in
 // another encoding than the media type says.
-func verifTable(t *testing.T, out *verifutil.Out, rnd *verifutil.Rand, extra int) {
+//
+// known=false (main pass): every row except (a) zstd-typed layers given to a gzip-producing converter —
+// the known finding verifSigZstdKept, run by the pass known=true — and (b) non-layer media types given
+// to the external-TOC functions, which are outside C19 (one guarded probe, verifProbeNonLayer).
+func verifTable(t *testing.T, out *verifutil.Out, rnd *verifutil.Rand, extra int, known bool) {
 	cs := verifNewStore(t)
-	out.Comment("media-type table")
-	out.Emit("rows", fmt.Sprintf("%d", len(verifTargets)*len(verifMediaTypes)))
+	out.Comment(fmt.Sprintf("media-type table (known-finding rows: %v)", known))
+	if !known {
+		out.Emit("rows", fmt.Sprintf("%d", len(verifTargets)*len(verifMediaTypes)))
+	}
+	knownRow := func(target string, mi int) bool {
+		m := verifMediaTypes[mi]
+		return target != "zstdchunked" && images.IsLayerType(m.mt) && verifMTComp(m.mt) == "zstd"
+	}
 	type row struct {
 		target string
 		mi     int
@@ -1131,16 +1155,22 @@ func verifTable(t *testing.T, out *verifutil.Out, rnd *verifutil.Rand, extra int
 	var rows []row
 	for _, tg := range verifTargets {
 		for mi, m := range verifMediaTypes {
-			rows = append(rows, row{tg, mi, m.comp})
+			if !images.IsLayerType(m.mt) && (tg == "exttoc" || tg == "exttoc-lossless") {
+				continue
+			}
+			if knownRow(tg, mi) == known {
+				rows = append(rows, row{tg, mi, m.comp})
+			}
 		}
 	}
 	for i := 0; i < extra; i++ {
 		mi := verifLayerTypes[rnd.Intn(len(verifLayerTypes))]
 		comp := []string{"none", "gzip", "zstd"}[rnd.Intn(3)]
-		if comp == verifMediaTypes[mi].comp {
+		tg := verifTargets[rnd.Intn(4)]
+		if comp == verifMediaTypes[mi].comp || knownRow(tg, mi) != known {
 			continue
 		}
-		rows = append(rows, row{verifTargets[rnd.Intn(4)], mi, comp})
+		rows = append(rows, row{tg, mi, comp})
 	}
 	for ri, r := range rows {
 		m := verifMediaTypes[r.mi]
@@ -1160,11 +1190,7 @@ func verifTable(t *testing.T, out *verifutil.Out, rnd *verifutil.Rand, extra int
 		switch {
 		case res.panic != nil:
 			out.Emit(op, "panic")
-			sig := "conversion-panic"
-			if !images.IsLayerType(m.mt) && c.finalize != nil {
-				sig = verifSigNonLayer
-			}
-			out.Fail(sig, fmt.Sprintf("%s: %v", id, res.panic))
+			out.Fail("conversion-panic", fmt.Sprintf("%s: %v", id, res.panic))
 		case res.err != nil:
 			out.Emit(op, "err")
 			if !verifExpectedErr(c, src) {
@@ -1252,8 +1278,9 @@ func verifConcurrent(t *testing.T, out *verifutil.Out, rnd *verifutil.Rand, targ
 			srcs = append(srcs, s)
 		}
 	}
-	c := verifNewConv(rnd, target, srcs, false)
-	out.Comment(fmt.Sprintf("concurrent %s/%s n=%d opts=%s", c.target, c.variant, len(srcs), c.optDesc))
+	spare := rnd.Bool() // option slices with spare capacity, the way cmd/ctr-remote builds them
+	c := verifNewConv(rnd, target, srcs, spare)
+	out.Comment(fmt.Sprintf("concurrent %s/%s n=%d spare=%v opts=%s", c.target, c.variant, len(srcs), spare, c.optDesc))
 	t0 := time.Now()
 	res := verifConvertBatch(c, cs, srcs)
 	t1 := time.Now()
@@ -1384,7 +1411,7 @@ func verifImage(t *testing.T, out *verifutil.Out, rnd *verifutil.Rand, target st
 	if err := content.WriteBlob(ctx, cs, "verif-mf", bytes.NewReader(mfB), mfDesc, content.WithLabels(lb)); err != nil {
 		t.Fatal(err)
 	}
-	c := verifNewConv(rnd, target, srcs, false)
+	c := verifNewConv(rnd, target, srcs, rnd.Bool())
 	c.docker2oci = true
 	out.Comment(fmt.Sprintf("image %s/%s layers=%d docker=%v opts=%s", c.target, c.variant, n, docker, c.optDesc))
 	cf := converter.DefaultIndexConvertFunc(c.fn, true, platforms.All)
@@ -1608,7 +1635,7 @@ func verifRunChild(out *verifutil.Out, scenario, sig string, round int) bool {
 		why = append(why, strings.SplitN(s[i:], "\n", 2)[0])
 	}
 	for _, m := range verifChildFailRe.FindAllStringSubmatch(s, -1) {
-		if m[1] == verifSigMinChunk || strings.HasPrefix(scenario, "putstress") {
+		if strings.HasPrefix(scenario, "putstress") {
 			out.Fail(m[1], m[2]) // keeps its own signature
 			continue
 		}
